@@ -33,6 +33,8 @@ type IClient struct {
 	Hook  func(c *Call) error // nil => no choice points
 	After func(c *Call)       // observation hook called after the call completed (oracles that need the instant)
 	Quiet int                 // >0: calls are neither logged nor announced (harness-internal deliveries)
+	// Sched, when set, is called before every call WITHOUT the client lock held: the cooperative scheduler's yield point
+	Sched func(label string)
 	// GracefulPods makes pod deletion graceful (deletionTimestamp = now + grace; the pod stays until the environment removes it)
 	GracefulPods bool
 	seq          int
@@ -51,6 +53,9 @@ func (c *IClient) begin(verb string, obj any, name string, note string) (*Call, 
 	call := &Call{Verb: verb, Kind: kindOf(obj), Name: name, Note: note}
 	if c.Quiet > 0 {
 		return call, nil
+	}
+	if c.Sched != nil {
+		c.Sched(verb + " " + call.Kind + "/" + name)
 	}
 	c.mu.Lock()
 	defer c.mu.Unlock()
